@@ -164,6 +164,7 @@ fn replay(sink: &mut common::Sink, toks: &[&str]) {
         "c16" => c16::replay(sink, toks),
         "c16x" => c16x::replay(sink, toks),
         "rtv" | "rtt" => c04::replay(sink, toks),
+        "rtsci" => c04::replay(sink, toks),
         "rtm" => c04m::replay(sink, toks),
         "rtw" => c04m::replay(sink, toks),
         "tt" | "tt3" | "pfxs" | "rfaults" => typed::replay(sink, toks),
